@@ -1580,6 +1580,24 @@ impl<T: Storage> Raft<T> {
             return;
         }
 
+        // A node that wins by its own vote becomes leader at once, without the vote round
+        // trip that otherwise guarantees that its whole log has been persisted first (see
+        // `become_leader`). With asynchronous persistence it has to wait for that.
+        if self.raft_log.persisted != self.raft_log.last_index()
+            && self
+                .prs
+                .conf()
+                .voters()
+                .vote_result(|id| if id == self.id { Some(true) } else { None })
+                == VoteResult::Won
+        {
+            warn!(
+                self.logger,
+                "cannot campaign at term {} since there are still unpersisted log entries", self.term
+            );
+            return;
+        }
+
         info!(
             self.logger,
             "starting a new election";
